@@ -1250,14 +1250,47 @@ class Interp:
         for tgt in st.targets:
             self.assign(tgt, v, scope)
             if isinstance(tgt, ast.Name):
-                scope.aliases.pop(tgt.id, None)
-                if isinstance(st.value, ast.Subscript) and isinstance(v, SV) and v.typ.kind in ('Seq', 'Set', 'Map'):
-                    # path alias: the name denotes the container stored at base[key]; mutations write through
-                    key = self.eval(st.value.slice, scope)
-                    scope.aliases[tgt.id] = {'base': st.value.value, 'base_txt': ast.unparse(st.value.value), 'key': key, 'stale': False}
-                elif isinstance(st.value, ast.Attribute) and isinstance(v, SV) and v.typ.kind in ('Seq', 'Set', 'Map'):
-                    # the name denotes the container held by an object's attribute: in-place changes are seen through the attribute
-                    scope.aliases[tgt.id] = {'attr': st.value, 'base_txt': ast.unparse(st.value), 'key': None, 'stale': False}
+                self._note_alias(tgt.id, st.value, v, scope)
+            elif isinstance(tgt, (ast.Tuple, ast.List)) and isinstance(st.value, (ast.Tuple, ast.List)) and len(tgt.elts) == len(st.value.elts):
+                # a, b = x.p, y.q : each name is bound like in a simple assignment
+                vals = v if isinstance(v, (tuple, list)) and len(v) == len(tgt.elts) else [None] * len(tgt.elts)
+                for t, e, x in zip(tgt.elts, st.value.elts, vals):
+                    if isinstance(t, ast.Name):
+                        self._note_alias(t.id, e, x, scope)
+            elif isinstance(tgt, (ast.Tuple, ast.List)) and not isinstance(st.value, ast.Call):      # (the results of a call are the callee's to describe)
+                for t in tgt.elts:
+                    if isinstance(t, ast.Name):
+                        x = scope.lookup(t.id) if scope.has(t.id) else None
+                        if isinstance(x, SV) and x.typ.kind in ('Seq', 'Set', 'Map'):
+                            scope.aliases[t.id] = {'unknown': f'unpacked from {ast.unparse(st.value)[:40]}', 'base_txt': '?', 'key': None, 'stale': False}
+
+    FRESH_VALUE_NODES = (ast.List, ast.ListComp, ast.Dict, ast.DictComp, ast.Set, ast.SetComp, ast.BinOp, ast.Constant, ast.Tuple, ast.JoinedStr)
+
+    def _note_alias(self, name, value_node, v, scope):
+        '''value-semantics containers vs Python references: remember through which path a freshly bound name reaches a mutable container, so that in-place
+        changes made through the name are written back -- or refuse to go on when the path is not one the engine tracks'''
+        scope.aliases.pop(name, None)
+        if not (isinstance(v, SV) and v.typ.kind in ('Seq', 'Set', 'Map')):
+            return
+        if isinstance(value_node, ast.Subscript):
+            # path alias: the name denotes the container stored at base[key]; mutations write through
+            key = self.eval(value_node.slice, scope)
+            scope.aliases[name] = {'base': value_node.value, 'base_txt': ast.unparse(value_node.value), 'key': key, 'stale': False}
+        elif isinstance(value_node, ast.Attribute):
+            # the name denotes the container held by an object's attribute: in-place changes are seen through the attribute
+            scope.aliases[name] = {'attr': value_node, 'base_txt': ast.unparse(value_node), 'key': None, 'stale': False}
+        elif isinstance(value_node, ast.Name):
+            # y = x : two names for one container; a change through one of them must not be lost for the other
+            src = scope.find_alias(value_node.id)
+            if src is not None:
+                scope.aliases[name] = dict(src)
+            else:
+                scope.aliases[name] = {'unknown': f'another name of {value_node.id}', 'base_txt': '?', 'key': None, 'stale': False}
+                scope.aliases.setdefault(value_node.id, {'unknown': f'another name of {name}', 'base_txt': '?', 'key': None, 'stale': False})
+        elif isinstance(value_node, self.FRESH_VALUE_NODES) or isinstance(value_node, ast.Call):
+            return          # a new object (literal, comprehension, operator result) or the result of a call (callee contracts return values)
+        else:
+            scope.aliases[name] = {'unknown': f'bound by {type(value_node).__name__}', 'base_txt': '?', 'key': None, 'stale': False}
 
     def s_AnnAssign(self, st, scope):
         if st.value is not None:
